@@ -1,5 +1,6 @@
 (* Properties_C11x.v -- C11, part "cache": an expression has one value whichever way the caller asks,
-   WHATEVER WAS EVALUATED BEFORE.  The objects XObjectFactoryDefault recycles (XNodeSet, XString, XNumber) cache
+   WHATEVER WAS EVALUATED BEFORE.  The objects XObjectFactoryDefault recycles (XNodeSet, XString, XNumber) and the result
+   tree fragments of StylesheetExecutionContextDefault (XResultTreeFrag: never reused, a constructor call each) cache
    conversions of their value; the machine of XoCacheDefs.v is those caches, their sentinels, release()/set()
    and the factory's three stacks as they are in /repo (shape of clearCachedValues(), sentinel, call structure
    and bounds regenerated into GenXoCache.v).  `run` is that machine, `ref_run` the specification without any
@@ -63,6 +64,33 @@ Theorem empty_string_value_is_recomputed : forall to_num num_to_str fl o vals,
 Proof. exact empty_string_value_is_not_kept. Qed.
 Print Assumptions empty_string_value_is_recomputed.
 
+(** * result tree fragments: the single-text-child shortcut *)
+(* whenever getSingleTextChildValue delivers a value (first child is a text node without a sibling), that value is the
+   string-value of the whole fragment *)
+Theorem rtf_single_text_child_shortcut_agrees : forall fl, flags_ok fl = true ->
+  forall cs v, single_text_child fl cs = Some v -> v = frag_string cs.
+Proof. exact single_text_child_is_the_string. Qed.
+Print Assumptions rtf_single_text_child_shortcut_agrees.
+
+(* ... and for such a fragment the shortcut is what answers: m_cachedStringValue is never filled *)
+Theorem rtf_shortcut_is_taken_for_a_single_text_child : forall to_num num_to_str fl, flags_ok fl = true ->
+  forall v q, csing (fresh fl (PFrag [FText v])) = Some v
+              /\ cstr (fst (ask to_num num_to_str fl q (fresh fl (PFrag [FText v])))) = [].
+Proof. exact shortcut_is_taken. Qed.
+Print Assumptions rtf_shortcut_is_taken_for_a_single_text_child.
+
+(* a plausible broken shape: getSingleTextChildValue without `getNextSibling() == 0`.  <v>2<e>0</e></v> is then "2" *)
+Theorem rtf_missing_sibling_test_is_rejected_by_the_guard : flags_ok no_sibling_test_flags = false.
+Proof. exact no_sibling_test_guard_rejects. Qed.
+Print Assumptions rtf_missing_sibling_test_is_rejected_by_the_guard.
+
+Theorem rtf_missing_sibling_test_refuted :
+  run string_to_number number_to_string no_sibling_test_flags w0 rtf_history = [OStr s_2; ONum (string_to_number s_2)]
+  /\ ref_run string_to_number number_to_string [] rtf_history = [OStr s_20; ONum (string_to_number s_20)]
+  /\ string_to_number s_2 <> string_to_number s_20.
+Proof. exact no_sibling_test_refuted. Qed.
+Print Assumptions rtf_missing_sibling_test_refuted.
+
 (** * the seeded shape: reset only when the cached string is non-empty (seeded/C11_f) *)
 Theorem guarded_clear_is_rejected_by_the_guard : flags_ok seeded_flags = false.
 Proof. exact seeded_guard_rejects. Qed.
@@ -97,10 +125,14 @@ Definition h_mixed : list op :=
   [Create (PNodes [s_sentinel; s_20]); Ask 0 QNum; Ask 0 QStrRef; Create (PNum (string_to_number s_20));
    Ask 1 QStrRef; Ask 1 QLen; Return 0; Create (PStr s_20); Ask 1 QNum; Return 0; Create (PNodes []);
    Ask 1 QNum; Ask 1 QBool; Ask 1 QStrBuf; Create (PNum S754_nan); Ask 2 QStrEvents; Ask 2 QBool;
-   Return 0; Create (PStr s_sentinel); Ask 2 QNum].
-(* a history with answers of all four kinds, through recycled objects of all three kinds *)
+   Return 0; Create (PStr s_sentinel); Ask 2 QNum;
+   Create (PFrag [FText s_20]); Ask 3 QNum; Ask 3 QLen; Return 3;
+   Create (PFrag [FElem s_20; FComment s_20; FText s_sentinel]); Ask 3 QStrRef; Ask 3 QNum; Ask 3 QBool; Ask 3 QStrBuf;
+   Create (PFrag []); Ask 4 QNum; Ask 4 QBool].
+(* a history with answers of all four kinds, through recycled objects of the three factory kinds and three
+   fragments (single text child, mixed content, empty) *)
 Example mixed_history_observes_something :
-  length (xo_run h_mixed) = 11 /\ xo_run h_mixed = xo_ref h_mixed.
+  length (xo_run h_mixed) = 19 /\ xo_run h_mixed = xo_ref h_mixed.
 Proof. vm_compute. split; reflexivity. Qed.
 (* the as-found tree answers the C11_f history correctly *)
 Example c11f_history_this_tree :
@@ -117,5 +149,5 @@ Example nan_is_kept : is_bogus gen_flags S754_nan = false.
 Proof. vm_compute. reflexivity. Qed.
 (* the invariant is satisfiable by an object with both members filled *)
 Example invariant_satisfiable :
-  ok_obj string_to_number number_to_string gen_flags (mk_obj (PNodes [s_20]) s_20 (string_to_number s_20)).
+  ok_obj string_to_number number_to_string gen_flags (mk_obj (PNodes [s_20]) s_20 (string_to_number s_20) None).
 Proof. unfold ok_obj. simpl. split; right; reflexivity. Qed.
